@@ -437,6 +437,8 @@ class Interp:
     # ------------------------------------------------------------------ expressions
     def truth(self, v: Any) -> bool:
         if isinstance(v, Obj):
+            if "__native__" in v.attrs and not (v.cls is not None and (self.prog.lookup_method(v.cls, "__bool__") or self.prog.lookup_method(v.cls, "__len__"))):
+                return bool(v.attrs["__native__"])
             if v.cls is not None:
                 if self.prog.lookup_method(v.cls, "__bool__"):
                     return self.truth(self._call_dunder(v, "__bool__", []))
@@ -451,6 +453,8 @@ class Interp:
         if isinstance(v, Obj):
             if v.cls is not None and self.prog.lookup_method(v.cls, "__iter__"):
                 return self._iterate(self._call_dunder(v, "__iter__", []))
+            if "__native__" in v.attrs:
+                return list(v.attrs["__native__"])
             raise AnalysisError(f"iteration over abstract object {v!r} not modelled")
         if isinstance(v, (Sym, ClassRef, ExtRef)) or v is None:
             raise Raised("TypeError")
@@ -458,6 +462,12 @@ class Interp:
 
     def _call_dunder(self, obj: Obj, name: str, args: list[Any]) -> Any:
         ms = self.prog.lookup_method(obj.cls, name) if obj.cls else []
+        if not ms and "__native__" in obj.attrs:
+            try:
+                r = getattr(obj.attrs["__native__"], name)(*args)
+                return list(r) if name == "__iter__" else r
+            except NATIVE_EXC as ex:
+                raise Raised(type(ex).__name__) from None
         if not ms:
             raise Raised("TypeError")
         return self._invoke(ms[0], [obj, *args], {}, None)
@@ -754,6 +764,8 @@ class Interp:
                     return self.eval(hit[1], Env(hit[0].module, None, hit[0]))
                 if attr == "__class__":
                     return ClassRef(obj.cls)
+            if "__native__" in obj.attrs and hasattr(obj.attrs["__native__"], attr):
+                return ("native", obj.attrs["__native__"], attr)
             raise AnalysisError(f"attribute `{attr}` of abstract {obj!r} is not in the abstract state and not defined by its class")
         if isinstance(obj, ClassRef):
             cls = obj.cls
@@ -896,6 +908,17 @@ class Interp:
                 return args[0]
             raise Raised("ValueError")
         obj = Obj(cls, {})
+        ext_bases = {b.split(".")[-1].split("[")[0] for c in self.prog.mro(cls) for b in c.base_names}
+        if ext_bases & {"deque", "list", "dict", "set"} and not self.prog.lookup_method(cls, "__init__"):
+            # subclass of a stdlib container without its own constructor: back the abstract object with the real container
+            import collections
+
+            factory = {"deque": collections.deque, "list": list, "dict": dict, "set": set}[sorted(ext_bases & {"deque", "list", "dict", "set"})[0]]
+            try:
+                obj.attrs["__native__"] = factory(*[list(self._iterate(a)) if not isinstance(a, (dict,)) else a for a in args], **kwargs)
+            except NATIVE_EXC as ex:
+                raise Raised(type(ex).__name__) from None
+            return obj
         init = self.prog.lookup_method(cls, "__init__")
         if init:
             self._invoke(init[0], [obj, *args], kwargs, None)
@@ -955,6 +978,9 @@ class Interp:
                 return list(self._iterate(args[0]))
             if short == "len" and isinstance(args[0], Obj):
                 return self._call_dunder(args[0], "__len__", [])
+            if short in ("list", "tuple", "set", "frozenset", "sorted", "enumerate", "reversed") and args and isinstance(args[0], Obj) and "__native__" in args[0].attrs \
+                    and not (args[0].cls is not None and self.prog.lookup_method(args[0].cls, "__iter__")):
+                args = [list(args[0].attrs["__native__"]), *args[1:]]
             if short in ("list", "tuple", "set", "frozenset", "sorted", "enumerate", "reversed") and args and isinstance(args[0], Obj):
                 args = [list(self._iterate(args[0])), *args[1:]]
             if short == "sorted" and "key" in kwargs:
@@ -984,6 +1010,7 @@ class Interp:
         if name.startswith("itertools.") and short in ("chain", "islice", "product", "repeat", "starmap", "takewhile", "dropwhile", "pairwise", "accumulate"):
             if short == "repeat" and len(args) + len(kwargs) < 2:
                 raise AnalysisError("itertools.repeat without a count is not modelled")
+            args = [list(a.attrs["__native__"]) if isinstance(a, Obj) and "__native__" in a.attrs else a for a in args]
             if any(isinstance(a, (Obj, Closure, Bound, FunctionInfo)) for a in args):
                 raise AnalysisError(f"itertools.{short} over abstract objects / callables not modelled")
             try:
